@@ -67,14 +67,17 @@ func (svr *Server) handshakeControlChannel(wsc websocket.Conn) {
 		buf.Reset()
 		defer buffers.Put(buf)
 		req.ResponseOK(buf, map[string]string{FieldChannel: channelID}, "")
+		// register the session before its id is disclosed: a data channel may
+		// JOIN as soon as the client has read the answer
+		session := newSession(svr, wsc, channelID)
+		svr.sessions.Store(channelID, session)
 		_, err = wsc.Write(buf.Bytes())
 		if err != nil {
+			svr.sessions.Delete(channelID)
 			svr.logger.Error(err.Error())
 			wsc.Close()
 			break
 		}
-		session := newSession(svr, wsc, channelID)
-		svr.sessions.Store(channelID, session)
 		svr.logger.Debugf("wsp ===>>> \r\n%s", buf.String())
 		go session.process()
 		break
